@@ -187,6 +187,24 @@ P('C03',
   thorough=dict(cases=4000, max_size=6000, max_seconds=1800),
   )
 
+P('C17',
+  states_termination=True,
+  technique='property-based testing: generated cache populations and call scripts; oracle = independent regex / literal matcher over the reference display text plus a model of the documented pass order (stateful, recomputed after every cache update)',
+  rule='cache population = 0-12 pages / subpages (adjacent numbers, holes, only subpages, clock style subcodes, hex numbered pages) built through vbi_decode; page '
+       'text = filler alphabet with planted instances of the pattern and near misses (changed character, split over two rows, interrupted by a colour code, in the '
+       'header or row 24); pattern = literal incl. every displayable escaped metacharacter or regex (literals, dot, classes, negated classes, alternation, * + ?), '
+       'case folded or not; script = 4-43 vbi_search_next calls with direction changes, pages stored or replaced between calls, progress callback cancelling. '
+       'Non-trivial: >= 3 cached pages with a non-matching page between two matching ones, or start page not cached, or a direction change, or a cache update between calls; distinct = hash of consumed choices.',
+  level_text='Generated-history search with an explicit oracle: every vbi_search_next result is compared with the admissible result computed from the model (first page in the '
+             'remaining part of the pass whose rows 1-23 contain the pattern according to an independent matcher; the current page again while it still holds unreturned '
+             'occurrences; not-found exactly when no such page is left; cache-empty on an empty cache), the returned vbi_page must be that page and its highlighted cells '
+             'must spell a string the pattern matches; hangs are caught by the watchdog and confirmed by three replays. Sampling only.',
+  level_note='Trusted: models/ttx_model.h for the display text, the backtracking matcher in props/C17.cc, the pass order read from the documentation of vbi_search_new / vbi_search_next (forward: start page first; backward: page before the start page first). Anchors (^ $), double height text and non-ASCII case folding are not generated.',
+  design_ref='DESIGN.md section 2, C17',
+  quick=dict(cases=160000, max_size=8000, max_seconds=120),
+  thorough=dict(cases=2500000, max_size=8000, max_seconds=1500, fuzz=dict(seconds=240, jobs=8, max_len=8000)),
+  )
+
 NOT_YET = {}
 
 
